@@ -29,7 +29,7 @@ CHECKS = {
  'C11': (MC, '4 C11', 'Symbolic K-cycle trace of the source before vs after copy_block / synthesize / optimize (update_working_block=False), '
          'object-level fingerprint, working block identity, no shared wire/memory objects, result equivalent to source from reset and '
          'from arbitrary corresponding states, then API edits/simulations on one block and re-check of the other.',
-         'Trusted: Simulation semantics (C01), z3, stubs; fingerprint definition. Bounded: designs, 5 edit scripts, K=3.',
+         'Trusted: Simulation semantics (C01), z3, stubs; fingerprint definition. Bounded: designs, 9 edit scripts, K=3.',
          'symbolic trace comparison before/after (SMT) + object-graph fingerprints'),
 
  'C06': (MC, '4 C06', 'Every operator/helper of the grid is elaborated with the real API and simulated symbolically; len(result) is a fact, the '
@@ -46,8 +46,9 @@ CHECKS = {
          'symbolic simulation of elaborated condition trees + SMT comparison with a tree interpreter'),
  'C10': (FE, '4 C10', 'Part 1: real sanity_check_net on nets whose bitwidths are symbolic (1..4095): raises iff the documented predicate is false '
          '(solver, all widths). Part 2: real Block.__iter__ with pop() tie-breaks as symbolic ranks, every distinguishable order explored. '
-         'Part 3: every (fault kind, site) injected into well-formed designs must be rejected by the three simulator constructors.',
-         'Trusted: documented predicate transcription, fault injectors. Bounded: ops x arity 0..4, designs <= 9 nets / <= 3000 orders, 13 fault kinds.',
+         'Part 3: every (fault kind, site) injected into well-formed designs (word-level and synthesized; fresh, after an earlier check, under a foreign '
+         'working block) must be rejected by sanity_check and the three simulator constructors; a checker that does not terminate is reported.',
+         'Trusted: documented predicate transcription, fault injectors. Bounded: ops x arity 0..4, designs <= 9 nets / <= 3000 orders, 20 fault kinds.',
          'symbolic execution of sanity_check_net over all bitwidths (SMT) + schedule exploration with symbolic ranks + fault enumeration'),
  'C13': (MC, '4 C13', 'Each adder/multiplier generator is elaborated for every width/parameter of the grid and simulated symbolically; the result is '
          'compared with integer +/* for ALL operand values; sequential multipliers by BMC from arbitrary register state.',
@@ -64,7 +65,7 @@ CHECKS = {
          'symbolic execution of the conversion helpers on z3 integer proxies, per-path SMT obligations'),
  'C17': (MC, '4 C17', 'TimingAnalysis runs on symbolic (integer) gate delays: timing_map/max_length equal the max over enumerated register-free paths '
          'for ALL delays, critical_path explored per region; paths() compared with an SMT characterisation of simple net paths; max_freq on an '
-         'IEEE double proxy.',
+         'IEEE double proxy; a default-model analysis before and after one under a custom model.',
          'Trusted: path-enumeration oracle, z3 (LIA, FP). Bounded: designs <= 14 nets (critical_path <= 7).',
          'symbolic execution of TimingAnalysis with delays as solver variables + SMT path characterisation'),
  'C18': (MC, '4 C18', 'AES: ROM tables == GF(2^8) definitions for all addresses, per-stage lemmas, one inductive step of both state machines against '
@@ -79,8 +80,9 @@ CHECKS = {
 
  'C02': (TV, '4 C02', 'Per design and form (pre / synthesized merged+unmerged / optimized): FastSimulation (its generated Python executed through an AST hook) '
          'and CompiledSimulation (real constructor + gcc; the generated C translated to z3 by vf/ctrans.py; the real run() executed over list buffers) '
-         'against the real Simulation on shared variables: every traced wire every cycle, memories at every address.',
-         'Trusted: vf/ctrans.py (C subset semantics), total-map model of the C hash-map helper, gcc, mul64 abstraction for products > 4x4 bits with range facts. '
+         'against the real Simulation on shared variables: every traced wire every cycle, memories at every address; run([...]) in one call; '
+         'inspect_mem through a ctypes argument-passing stub; the C hash-map helper text against a functional map (vf/chelper.py).',
+         'Trusted: vf/ctrans.py and vf/chelper.py (C subset semantics), the ctypes stub, gcc, mul64 abstraction for products > 4x4 bits with range facts. '
          'Bounded: widths crossing every 64-bit limb boundary up to 129, K=3 (quick).',
          'symbolic execution of the three simulators (generated Python via AST hook, generated C via a C-subset-to-SMT translator) + SMT equivalence'),
  'C05': (TV, '4 C05', 'Per design and add_reset option: the emitted Verilog is parsed and evaluated by vf/vtrans.py under Verilog-2001 width / non-blocking rules '
@@ -90,7 +92,8 @@ CHECKS = {
          'translation validation: emitted Verilog text -> SMT (own Verilog-subset evaluator) vs symbolic Simulation'),
  'C08': (MC, '4 C08', 'Memory-centred designs (1-3 read, 1-2 write ports, widths to 70): one step from an ARBITRARY array (covers every history) and BMC from an '
          'uninitialised memory, on Simulation, FastSimulation, the C model, and Simulation of synthesized/optimized blocks; ROM data as list/dict/function with '
-         'holes raising exactly when documented. (Verilog clause: under C05.)',
+         'holes raising exactly when documented; register-driven, conditional and tied-off write ports; two simulators in sequence on one MemBlock / one '
+         'memory_value_map object. (Verilog clause: under C05.)',
          'Trusted: array oracle, ctrans total-map model (helper text checked separately), z3 array theory. Bounded: port counts, widths, K.',
          'symbolic simulation from an arbitrary z3 array + SMT (inductive step + BMC)'),
  'C12': (TV, '4 C12', 'Generated BLIF/.bench texts (exhaustive covers over <=2 inputs, seeded covers, every listed flip-flop cell, latch init codes, two-level '
@@ -99,13 +102,16 @@ CHECKS = {
          'translation validation: imported netlist (symbolic Simulation) vs independent BLIF/bench reader in SMT'),
  'C15': (MC, '4 C15', 'inspect == last trace entry and trace length after every step; step_multiple with symbolic inputs AND symbolic expected values: per explored '
          'path the parsed report lists exactly the mismatching pairs; rtl_assert outcome per path; illegal input values as an unconstrained variable '
-         '(rejected iff outside [0,2^w)); VCD parsed back through placeholders; print_trace on solver-chosen witnesses.',
+         '(rejected iff outside [0,2^w), also when equal to a non-zero default_value; a refused step leaves every channel as it was); VCD parsed back '
+         'through placeholders; print_trace on solver-chosen witnesses; run([...]) in one call; two simulators in sequence.',
          'Trusted: placeholder/parse-back stubs, z3. Bounded: designs, K=3; print_trace is a witness check (C-level formatting).',
          'symbolic execution of step/step_multiple/inspect/print_vcd/run with path exploration + SMT'),
  'C20': (MC, '4 C20', 'Read-only: symbolic trace and object fingerprint of the block before vs after each export/analysis call. Deterministic: the four texts the '
          'property names are emitted under every iteration order the code can distinguish when any two objects get symbolic ranks; bytes must be identical; '
-         'sort keys checked for collisions over short names.',
-         'Trusted: order model (one global rank order induces every controlled set). Bounded: designs <= 14 objects, pairs of objects, names <= 4 chars.',
+         'sort keys checked for collisions over short names; the design rebuilt under rank-ordered sets (also followed by a pass: port identifiers); '
+         'transformation passes under the order model, every structurally distinct result compared with the source by the solver.',
+         'Trusted: order model (one global rank order induces every controlled set; set displays inside PyRTL rewritten to set() calls from source). '
+         'Bounded: designs <= 14 objects, pairs of objects, names <= 4 chars.',
          'schedule exploration with symbolic ranks (SMT-pruned) + symbolic trace comparison'),
 }
 PENDING = {}
